@@ -1563,4 +1563,58 @@ Section R.
     intros E F L R M. rewrite run_app, E. cbn [bind om_run_lines]. apply is_err_bind_l.
     eapply closing_sample_rejected; eassumption.
   Qed.
+  (* =========================== (g) the native-histogram exemption belongs to the line =========================== *)
+  (* Whether a sample line skips the group block and the family switch is decided by that line and the type of the family
+     in progress alone: outside a histogram family no line is read as a native histogram, whatever lines (native
+     histograms included) were read before. *)
+  Lemma read_sample_flag typ line s nh :
+    om_typ_is typ OM_histogram = false -> read_sample typ line = Ok (s, nh) -> nh = false.
+  Proof.
+    intros Ht H. unfold om_read_sample in H. rewrite Ht in H.
+    apply bind_ok in H as (s' & _ & H). inversion H. reflexivity.
+  Qed.
+
+  Lemma sample_line_group_err_any_flag st line s nh name :
+    om_typ_is (st_typ st) OM_histogram = false -> read_sample (st_typ st) line = Ok (s, nh) ->
+    mem_str (os_name s) (st_allowed st) = true -> st_name st = Some name ->
+    is_err (group_step st name s) -> is_err (sample_line st line).
+  Proof.
+    intros Ht Hr. pose proof (read_sample_flag _ _ _ _ Ht Hr) as ->. apply sample_line_group_err. exact Hr.
+  Qed.
+
+  Lemma timestamps_two_lines_any_flag a l1 l2 b st acc name s1 s2 nh1 nh2 gd1 gd2 :
+    prefix st0 a [] = Ok (st, acc) -> st_name st = Some name -> om_typ_is (st_typ st) OM_histogram = false ->
+    mem_str (os_name s1) (st_allowed st) = true -> mem_str (os_name s2) (st_allowed st) = true ->
+    is_sample_line l1 = true -> is_sample_line l2 = true ->
+    read_sample (st_typ st) l1 = Ok (s1, nh1) -> read_sample (st_typ st) l2 = Ok (s2, nh2) ->
+    om_group_for_sample s1 name (match st_typ st with Some t => t | None => [] end) = Ok (Some gd1) ->
+    om_group_for_sample s2 name (match st_typ st with Some t => t | None => [] end) = Ok (Some gd2) ->
+    om_kvs_eqb (sort_kv gd2) (sort_kv gd1) = true ->
+    ts_violation (st_typ st) (os_ts s1) (os_ts s2) ->
+    is_err (run st0 (a ++ l1 :: l2 :: b) []).
+  Proof.
+    intros Ea Hn Ht Hm1 Hm2 Hl1 Hl2 Hr1 Hr2.
+    pose proof (read_sample_flag _ _ _ _ Ht Hr1) as F1. pose proof (read_sample_flag _ _ _ _ Ht Hr2) as F2. subst nh1 nh2.
+    eapply timestamps_two_lines_document; eassumption.
+  Qed.
+
+  (* a sample whose name the family in progress (not a histogram) does not allow is never attached to it: the family is
+     closed - its closing checks run - and the sample starts an unknown family of its own name *)
+  Lemma foreign_sample_switches_family st line s nh st' out :
+    om_typ_is (st_typ st) OM_histogram = false -> read_sample (st_typ st) line = Ok (s, nh) ->
+    mem_str (os_name s) (st_allowed st) = false -> sample_line st line = Ok (st', out) ->
+    st_allowed st' = [os_name s] /\ st_typ st' = Some OM_unknown /\ exists seen', flush st = Ok (out, seen').
+  Proof.
+    intros Ht Hr Hm H. pose proof (read_sample_flag _ _ _ _ Ht Hr) as ->.
+    unfold om_sample_line in H. rewrite Hr in H. cbn [bind] in H.
+    unfold om_enter_family in H. rewrite Hm in H. cbn [negb andb] in H.
+    apply bind_ok in H as ([st1 out1] & He & H).
+    apply bind_ok in He as ([fams seen'] & Hf & He). apply bind_ok in He as ([cand q] & _ & He).
+    destruct (negb q && negb (is_valid_legacy_metric_name cand)); [discriminate|].
+    inversion He; subst st1 out1; clear He. cbn [st_name om_new_family] in H.
+    apply bind_ok in H as ([] & _ & H). apply bind_ok in H as (st2 & Hg & H).
+    apply bind_ok in H as ([] & _ & H). inversion H; subst st2 out; clear H.
+    cbn [negb] in Hg. apply group_step_fields in Hg as (_ & _ & G3 & _ & _ & G6 & _).
+    rewrite G3, G6. cbn. repeat split. exists seen'. exact Hf.
+  Qed.
 End R.
